@@ -252,7 +252,9 @@ pub fn gen_delivery(rng: &mut Rng, len: usize) -> Delivery {
     if len > 0 && rng.chance(1, 2) {
         let n = rng.range(1, 3);
         for _ in 0..n {
-            d.eintr.push((rng.below(len + 1), rng.range(1, 3) as u32));
+            // "after any number of Interrupted results": mostly 1..3, sometimes a storm
+            let count = if rng.chance(1, 12) { rng.range(40, 300) } else { rng.range(1, 3) };
+            d.eintr.push((rng.below(len + 1), count as u32));
         }
         d.eintr.sort_unstable();
         d.eintr.dedup_by_key(|e| e.0);
